@@ -1913,9 +1913,16 @@ func resetMsgTimestamp(msg msgstream.TsMsg, newTimestamp uint64) {
 	case *msgstream.DropCollectionMsg:
 		realMsg.BeginTimestamp = newTimestamp
 		realMsg.EndTimestamp = newTimestamp
+		// a drop message has no row timestamps: what is serialized (and decoded downstream) is the time of its base
+		if realMsg.GetBase() != nil {
+			realMsg.GetBase().Timestamp = newTimestamp
+		}
 	case *msgstream.DropPartitionMsg:
 		realMsg.BeginTimestamp = newTimestamp
 		realMsg.EndTimestamp = newTimestamp
+		if realMsg.GetBase() != nil {
+			realMsg.GetBase().Timestamp = newTimestamp
+		}
 	case *msgstream.ImportMsg:
 		realMsg.BeginTimestamp = newTimestamp
 		realMsg.EndTimestamp = newTimestamp
